@@ -399,6 +399,8 @@ type edge struct {
 type callRec struct {
 	val  *Val
 	cond string
+	args []*Val
+	argT []types.Type
 }
 
 type retInfo struct {
